@@ -497,6 +497,9 @@ Proof.
   inversion H as [H1]. now rewrite H1.
 Qed.
 
+Lemma forallb_ext {A} (f g : A -> bool) l : (forall x, f x = g x) -> forallb f l = forallb g l.
+Proof. intros H; induction l as [|x l IH]; simpl; [reflexivity|]. now rewrite H, IH. Qed.
+
 Lemma setg_cons p r m c ins :
   nth_error c p = Some ins -> setg r m (upd c p (set_bid m ins)) = setg (p :: r) m c.
 Proof.
@@ -581,6 +584,9 @@ Proof.
   intros Hb. apply Hn, in_or_app; now right.
 Qed.
 
+Lemma NoDup_app_tail {A} (a b : list A) : NoDup (a ++ b) -> NoDup b.
+Proof. induction a as [|y a IH]; simpl; intros H; [assumption|]. inversion H; auto. Qed.
+
 (* with pairwise disjoint groups, "last group containing p" is "the group containing p" *)
 Lemma chosen_unique gm g m p :
   NoDup (concat (map fst gm)) -> In (g, m) gm -> In p g -> chosen gm p = Some m.
@@ -591,7 +597,7 @@ Proof.
     rewrite chosen_none by (now apply (NoDup_app_disjoint g)).
     assert (existsb (Nat.eqb p) g = true) as -> by (apply existsb_exists; exists p; split; [assumption|apply Nat.eqb_refl]).
     reflexivity.
-  - rewrite IH; auto. now apply NoDup_app_remove_l in Hd.
+  - rewrite IH; auto. now apply NoDup_app_tail in Hd.
 Qed.
 
 Lemma map_fst_combine {A B} (l : list A) (l' : list B) : length l = length l' -> map fst (combine l l') = l.
@@ -651,7 +657,10 @@ Qed.
 Lemma definition_1q_in_range env b h m :
   m < length (nth b env []) ->
   definition_1q env b h m = Some (half_seq h (nth m (nth b env []) ([], []))).
-Proof. intros H. unfold definition_1q. now rewrite (nth_error_nth' _ ([], []) H). Qed.
+Proof.
+  intros H. unfold definition_1q, benv, basis in *.
+  rewrite (nth_error_nth' _ ([], []) H). reflexivity.
+Qed.
 
 Lemma splice_all_split2_one env x :
   wfb env x = true ->
@@ -701,7 +710,7 @@ Qed.
 Lemma ids_2q_NoDup c ids : NoDup (concat ids) -> NoDup (ids_2q c ids).
 Proof.
   induction ids as [|g ids IH]; simpl; intros Hd; [constructor|].
-  assert (Hr : NoDup (ids_2q c ids)) by (apply IH; now apply NoDup_app_remove_l in Hd).
+  assert (Hr : NoDup (ids_2q c ids)) by (apply IH; now apply NoDup_app_tail in Hd).
   destruct g as [|p' [|q t]]; auto.
   destruct (nth_error c p') as [i|]; auto. destruct (is_qpd2 i); auto.
   constructor; [|assumption]. intros Hin. apply ids_2q_In in Hin as [Hin _].
@@ -805,7 +814,7 @@ Proof.
   now rewrite decompose_measurements_spec.
 Qed.
 
-Lemma valid_members_placeholders c ids ms :
+Lemma valid_members_placeholders c ids (ms : list nat) :
   Forall (good_group c) ids ->
   forall g m p, In (g, m) (combine ids ms) -> In p g -> exists b, placeholder_with c b p.
 Proof.
@@ -872,7 +881,7 @@ Proof.
   intros Hv. pose proof Hv as ((Hval & Hd & H2) & Hl & Hr).
   unfold decompose. rewrite Hval. cbn [res_bind]. rewrite (set_basis_ids_valid env c ids ms Hv). cbn [res_bind].
   destruct (Forall_goodb env _ (assign_good env c ids ms Hv)) as (Hw & Hb).
-  rewrite (expand_phases env c (assign c ids (Some ms)) nc ids); [now rewrite Hb| |apply assign_kinds|exact Hw].
+  rewrite (expand_phases env c (assign c ids (Some ms)) nc ids); [now rewrite Hb| |exact (assign_kinds c (combine ids ms))|exact Hw].
   repeat split; assumption.
 Qed.
 
@@ -882,7 +891,7 @@ Theorem decompose_omitted env c nc ids :
   decompose env c nc ids None = if forallb has_bid c then Ok (spec env nc c) else Refused.
 Proof.
   intros Hv Hw. pose proof Hv as (Hval & _). unfold decompose. rewrite Hval. cbn [res_bind set_basis_ids].
-  now apply expand_phases.
+  exact (expand_phases env c c nc ids Hv eq_refl Hw).
 Qed.
 
 (* the assignment, pointwise *)
@@ -902,3 +911,277 @@ Proof.
   unfold assign, assign_gm. rewrite nth_error_mapi, Hx. simpl.
   destruct (chosen _ p); [now rewrite set_bid_other|reflexivity].
 Qed.
+
+(* ====================================================================== *)
+(* K. corollaries of the splice theorem                                    *)
+(* ====================================================================== *)
+
+Lemma measures_from_In k s y :
+  In y (measures_from k s) -> iop y = Measure \/ (In y s /\ is_marker y = false).
+Proof.
+  revert k; induction s as [|x s IH]; intros k; simpl; [tauto|].
+  destruct (is_marker x) eqn:E; simpl; intros [<-|H].
+  - now left.
+  - destruct (IH _ H) as [H1|[H1 H2]]; [now left|right; auto].
+  - right; auto.
+  - destruct (IH _ H) as [H1|[H1 H2]]; [now left|right; auto].
+Qed.
+
+Lemma ops_on_clean q ops y : In y (ops_on q ops) -> is_qpd y = false.
+Proof. unfold ops_on; intros H; apply in_map_iff in H as (o & <- & _). destruct o; reflexivity. Qed.
+
+Lemma splice_clean env x y : goodb env x = true -> In y (splice env x) -> is_qpd y = false.
+Proof.
+  unfold goodb, wfb, has_bid, splice. destruct x as [o qs cs]; simpl.
+  destruct o as [g|lb| | | | |b bid lb|b h bid lb| ]; simpl; intros H Hin;
+    try (destruct Hin as [<-|[]]; reflexivity).
+  - destruct bid as [m|]; [|rewrite andb_false_r in H; discriminate].
+    apply in_app_or in Hin as [Hin|Hin]; eapply ops_on_clean; eauto.
+  - destruct bid as [m|]; [|rewrite andb_false_r in H; discriminate].
+    eapply ops_on_clean; eauto.
+Qed.
+
+Theorem no_placeholder env c nc ids ms out k :
+  valid env c ids ms -> decompose env c nc ids (Some ms) = Ok (out, k) ->
+  forall y, In y out -> is_qpd y = false /\ is_marker y = false.
+Proof.
+  intros Hv H y Hy. rewrite (decompose_splice env c nc ids ms Hv) in H.
+  unfold spec, measures_numbered in H. inversion H; subst out k; clear H.
+  apply measures_from_In in Hy as [Hm|[Hin Hnm]].
+  - unfold is_qpd, is_marker. now rewrite Hm.
+  - split; [|assumption]. apply in_flat_map in Hin as (x & Hx & Hyx).
+    pose proof (assign_good env c ids ms Hv) as Hg. rewrite Forall_forall in Hg.
+    exact (splice_clean env x y (Hg x Hx) Hyx).
+Qed.
+
+(* --- the other instructions survive, in order --- *)
+Definition is_other (x : instr) : bool := negb (is_qpd x) && negb (is_marker x).
+Definition select {A} (mask : list bool) (l : list A) : list A := map fst (filter snd (combine l mask)).
+
+Lemma combine_app {A B} (l1 l2 : list A) (m1 m2 : list B) :
+  length m1 = length l1 -> combine (l1 ++ l2) (m1 ++ m2) = combine l1 m1 ++ combine l2 m2.
+Proof. revert m1; induction l1 as [|x l1 IH]; intros [|y m1] H; simpl in *; try lia; auto. f_equal; apply IH; lia. Qed.
+
+Lemma select_app {A} (m1 m2 : list bool) (l1 l2 : list A) :
+  length m1 = length l1 -> select (m1 ++ m2) (l1 ++ l2) = select m1 l1 ++ select m2 l2.
+Proof. intros H. unfold select. now rewrite combine_app, filter_app, map_app. Qed.
+
+Lemma select_false {A} (l : list A) : select (repeat false (length l)) l = [].
+Proof. unfold select. induction l as [|x l IH]; simpl; auto. Qed.
+
+Lemma measures_from_length k s : length (measures_from k s) = length s.
+Proof. revert k; induction s as [|x s IH]; intros k; simpl; [reflexivity|]. destruct (is_marker x); simpl; now rewrite IH. Qed.
+
+Lemma measures_from_app k a b :
+  measures_from k (a ++ b) = measures_from k a ++ measures_from (k + count_markers a) b.
+Proof.
+  revert k; induction a as [|x a IH]; intros k; simpl; [now rewrite Nat.add_0_r|].
+  unfold count_markers. simpl. destruct (is_marker x) eqn:E; simpl; rewrite IH; unfold count_markers.
+  - now rewrite Nat.add_succ_r.
+  - reflexivity.
+Qed.
+
+Lemma splice_other env x : is_qpd x = false -> splice env x = [x].
+Proof. unfold is_qpd, splice. destruct (iop x); try discriminate; reflexivity. Qed.
+
+Definition keep_mask (env : benv) (c1 : circ) : list bool :=
+  flat_map (fun x => if is_other x then [true] else repeat false (length (splice env x))) c1.
+
+Lemma keep_mask_cons env x c1 :
+  keep_mask env (x :: c1) =
+  (if is_other x then [true] else repeat false (length (splice env x))) ++ keep_mask env c1.
+Proof. reflexivity. Qed.
+
+Lemma keep_mask_spec env c1 : forall k,
+  length (keep_mask env c1) = length (measures_from k (flat_map (splice env) c1)) /\
+  select (keep_mask env c1) (measures_from k (flat_map (splice env) c1)) = filter is_other c1.
+Proof.
+  induction c1 as [|x c1 IH]; intros k; [split; reflexivity|].
+  rewrite keep_mask_cons. cbn [flat_map filter].
+  rewrite measures_from_app. destruct (IH (k + count_markers (splice env x))) as [IHl IHs].
+  destruct (is_other x) eqn:E.
+  - unfold is_other in E. apply andb_prop in E as [E1 E2]. apply negb_true_iff in E1, E2.
+    rewrite (splice_other env x E1) in *.
+    assert (Hm : measures_from k [x] = [x]) by (simpl; now rewrite E2).
+    rewrite Hm. split.
+    + rewrite !app_length, IHl. reflexivity.
+    + rewrite select_app by reflexivity. rewrite IHs. reflexivity.
+  - split.
+    + rewrite !app_length, repeat_length, measures_from_length. now rewrite IHl.
+    + rewrite select_app by (now rewrite repeat_length, measures_from_length).
+      rewrite <- (measures_from_length k (splice env x)), select_false. simpl. exact IHs.
+Qed.
+
+Lemma assign_others c ids maps : filter is_other (assign c ids maps) = filter is_other c.
+Proof.
+  destruct maps as [ms|]; [|reflexivity]. unfold assign, assign_gm. apply filter_mapi.
+  - intros j x H. unfold is_other in H. apply andb_prop in H as [H _]. apply negb_true_iff in H.
+    destruct (chosen _ j); [now apply set_bid_other|reflexivity].
+  - intros j x. destruct (chosen _ j); [|reflexivity]. unfold is_other. now rewrite is_qpd_set_bid, is_marker_set_bid.
+Qed.
+
+Theorem others_in_order env c nc ids ms out k :
+  valid env c ids ms -> decompose env c nc ids (Some ms) = Ok (out, k) ->
+  exists mask, length mask = length out /\ select mask out = filter is_other c.
+Proof.
+  intros Hv H. rewrite (decompose_splice env c nc ids ms Hv) in H.
+  unfold spec, measures_numbered in H. inversion H; subst out k; clear H.
+  exists (keep_mask env (assign c ids (Some ms))).
+  destruct (keep_mask_spec env (assign c ids (Some ms)) nc) as [Hl Hs].
+  split; [exact Hl|]. etransitivity; [exact Hs|apply assign_others].
+Qed.
+
+(* --- measurement bits --- *)
+Lemma measures_from_nth k s j :
+  nth_error (measures_from k s) j =
+  option_map (fun x => if is_marker x then mkI Measure (iqs x) [k + count_markers (firstn j s)] else x) (nth_error s j).
+Proof.
+  revert k j; induction s as [|a s IH]; intros k [|j]; simpl; auto.
+  - destruct (is_marker a); simpl; [|reflexivity]. unfold count_markers; simpl. now rewrite Nat.add_0_r.
+  - unfold count_markers in *. simpl. destruct (is_marker a) eqn:E; simpl; rewrite IH;
+      destruct (nth_error s j) as [x|]; simpl; try reflexivity;
+      destruct (is_marker x); try reflexivity; repeat f_equal; lia.
+Qed.
+
+Lemma marker_bits k s :
+  flat_map ics (select (map is_marker s) (measures_from k s)) = seq k (count_markers s).
+Proof.
+  revert k; induction s as [|a s IH]; intros k; [reflexivity|].
+  unfold select, count_markers in *. simpl. destruct (is_marker a) eqn:E; simpl.
+  - f_equal. apply IH.
+  - apply IH.
+Qed.
+
+(* ====================================================================== *)
+(* L. refusals                                                             *)
+(* ====================================================================== *)
+
+Theorem refuse_invalid env c nc ids maps :
+  ids_in_range c ids ->
+  ~ (Forall (good_group c) ids /\ length (filter is_qpd c) = length (concat ids)) ->
+  decompose env c nc ids maps = Refused.
+Proof. intros Hr Hn. unfold decompose. now rewrite (validate_refuses c ids Hr Hn). Qed.
+
+Theorem refuse_length env c nc ids maps g :
+  ids_in_range c ids -> In g ids -> length g <> 1 -> length g <> 2 ->
+  decompose env c nc ids maps = Refused.
+Proof.
+  intros Hr Hg H1 H2. apply refuse_invalid; [assumption|]. intros [HF _].
+  rewrite Forall_forall in HF. destruct (HF g Hg) as [[H|H] _]; congruence.
+Qed.
+
+Theorem refuse_non_placeholder env c nc ids maps g p :
+  ids_in_range c ids -> In g ids -> In p g ->
+  (forall x, nth_error c p = Some x -> is_qpd x = false) ->
+  decompose env c nc ids maps = Refused.
+Proof.
+  intros Hr Hg Hp Hx. apply refuse_invalid; [assumption|]. intros [HF _].
+  rewrite Forall_forall in HF. destruct (HF g Hg) as (_ & b & Hb).
+  destruct (Hb p Hp) as (i & Hi & Hbi). apply basis_of_is_qpd in Hbi. rewrite (Hx i Hi) in Hbi. discriminate.
+Qed.
+
+Theorem refuse_differing_bases env c nc ids maps g p q b b' :
+  ids_in_range c ids -> In g ids -> In p g -> In q g ->
+  placeholder_with c b p -> placeholder_with c b' q -> b <> b' ->
+  decompose env c nc ids maps = Refused.
+Proof.
+  intros Hr Hg Hp Hq (i & Hi & Hbi) (i' & Hi' & Hbi') Hne. apply refuse_invalid; [assumption|]. intros [HF _].
+  rewrite Forall_forall in HF. destruct (HF g Hg) as (_ & b0 & Hb).
+  destruct (Hb p Hp) as (j & Hj & Hbj). destruct (Hb q Hq) as (j' & Hj' & Hbj'). congruence.
+Qed.
+
+Theorem refuse_count env c nc ids maps :
+  ids_in_range c ids -> length (concat ids) <> length (filter is_qpd c) ->
+  decompose env c nc ids maps = Refused.
+Proof. intros Hr Hn. apply refuse_invalid; [assumption|]. intros [_ H]. congruence. Qed.
+
+Theorem refuse_maps_length env c nc ids ms :
+  ids_in_range c ids -> length ms <> length ids ->
+  decompose env c nc ids (Some ms) = Refused.
+Proof.
+  intros Hr Hn. unfold decompose. pose proof (validate_nocrash c ids Hr) as Hc.
+  destruct (validate c ids) as [[]| |]; [|reflexivity|congruence].
+  cbn [res_bind set_basis_ids]. destruct (Nat.eqb_spec (length ids) (length ms)); [congruence|reflexivity].
+Qed.
+
+Theorem refuse_map_out_of_range env c nc ids ms g m p :
+  ids_in_range c ids -> In (g, m) (combine ids ms) -> In p g -> in_range_b env c p m = false ->
+  decompose env c nc ids (Some ms) = Refused.
+Proof.
+  intros Hr Hgm Hp Hf. unfold decompose. pose proof (validate_nocrash c ids Hr) as Hc.
+  destruct (validate c ids) as [[]| |] eqn:Ev; [|reflexivity|congruence].
+  apply validate_ok in Ev as (Hg & _).
+  cbn [res_bind set_basis_ids]. destruct (negb (Nat.eqb (length ids) (length ms))); [reflexivity|].
+  rewrite assign_loop_char by (apply valid_members_placeholders, Hg).
+  destruct (maps_in_range env c (combine ids ms)) eqn:E; [|reflexivity].
+  unfold maps_in_range in E. rewrite forallb_forall in E. specialize (E (g, m) Hgm). simpl in E.
+  rewrite forallb_forall in E. specialize (E p Hp). congruence.
+Qed.
+
+(* ====================================================================== *)
+(* M. boolean validity check (used by the non-vacuity examples)            *)
+(* ====================================================================== *)
+
+Fixpoint nodupb (l : list nat) : bool :=
+  match l with [] => true | x :: r => negb (existsb (Nat.eqb x) r) && nodupb r end.
+
+Lemma nodupb_NoDup l : nodupb l = true -> NoDup l.
+Proof.
+  induction l as [|a l IH]; simpl; intros H; constructor; apply andb_prop in H as [H1 H2]; [|auto].
+  intros Hin. apply negb_true_iff in H1.
+  assert (existsb (Nat.eqb a) l = true) by (apply existsb_exists; exists a; split; auto using Nat.eqb_refl).
+  congruence.
+Qed.
+
+Definition qpd2_atb (c : circ) (p : nat) : bool :=
+  match nth_error c p with Some i => is_qpd2 i | None => false end.
+
+Definition groupingb (c : circ) (ids : list (list nat)) : bool :=
+  match validate c ids with Ok _ => true | _ => false end &&
+  nodupb (concat ids) &&
+  forallb (fun g => forallb (fun p => implb (qpd2_atb c p) (Nat.eqb (length g) 1)) g) ids.
+
+Definition validb (env : benv) (c : circ) (ids : list (list nat)) (ms : list nat) : bool :=
+  groupingb c ids && Nat.eqb (length ms) (length ids) && maps_in_range env c (combine ids ms).
+
+Lemma groupingb_sound c ids : groupingb c ids = true -> valid_grouping c ids.
+Proof.
+  unfold groupingb. intros H. apply andb_prop in H as [H H3]. apply andb_prop in H as [H1 H2].
+  split; [|split].
+  - destruct (validate c ids) as [[]| |]; try discriminate; reflexivity.
+  - now apply nodupb_NoDup.
+  - intros g p Hg Hp (i & Hi & Hq). rewrite forallb_forall in H3. specialize (H3 g Hg).
+    rewrite forallb_forall in H3. specialize (H3 p Hp). unfold qpd2_atb in H3. rewrite Hi, Hq in H3.
+    simpl in H3. now apply Nat.eqb_eq.
+Qed.
+
+Lemma validb_sound env c ids ms : validb env c ids ms = true -> valid env c ids ms.
+Proof.
+  unfold validb. intros H. apply andb_prop in H as [H H3]. apply andb_prop in H as [H1 H2].
+  split; [now apply groupingb_sound|split; [now apply Nat.eqb_eq|]].
+  intros g m p Hgm Hp. unfold maps_in_range in H3. rewrite forallb_forall in H3. specialize (H3 (g, m) Hgm).
+  simpl in H3. rewrite forallb_forall in H3. now apply H3.
+Qed.
+
+(* ====================================================================== *)
+(* N. measurement bits of the result                                       *)
+(* ====================================================================== *)
+
+Theorem measure_bits env c nc ids ms out k :
+  valid env c ids ms -> decompose env c nc ids (Some ms) = Ok (out, k) ->
+  let s := flat_map (splice env) (assign c ids (Some ms)) in
+  k = Nat.max 1 (count_markers s) /\
+  length out = length s /\
+  (forall j, nth_error out j =
+     option_map (fun x => if is_marker x then mkI Measure (iqs x) [nc + count_markers (firstn j s)] else x)
+                (nth_error s j)) /\
+  flat_map ics (select (map is_marker s) out) = seq nc (count_markers s).
+Proof.
+  intros Hv H s. rewrite (decompose_splice env c nc ids ms Hv) in H.
+  unfold spec, measures_numbered in H. fold s in H. inversion H; subst out k; clear H.
+  split; [reflexivity|]. split; [apply measures_from_length|]. split; [intros j; apply measures_from_nth|apply marker_bits].
+Qed.
+
+Theorem omitted_never_crashes env c nc ids :
+  valid_grouping c ids -> forallb (wfb env) c = true -> decompose env c nc ids None <> Crashed.
+Proof. intros Hv Hw. rewrite (decompose_omitted env c nc ids Hv Hw). destruct (forallb has_bid c); discriminate. Qed.
